@@ -81,13 +81,34 @@ def has_throw(tree):
     return bool(found)
 
 
-def table_of_call(F, n):
-    """If call node n is a member call on a namespace-scope table, return that variable."""
-    o = n.get("obj")
-    while isinstance(o, dict) and o.get("k") == "cast":
-        o = o.get("e")
+def _strip(o):
+    while isinstance(o, dict) and (o.get("k") == "cast" or (o.get("k") == "ilist" and len(o.get("e", [])) == 1)):
+        o = o.get("e") if o.get("k") == "cast" else o["e"][0]
+    return o
+
+
+def reference_aliases(F, f):
+    """Locals of f declared as references and bound to a namespace-scope variable: {local id: variable id}."""
+    out = {}
+
+    def visit(n):
+        if n.get("k") == "decl":
+            for d in n.get("d", []):
+                if (F.T(d["t"]) or "").rstrip().endswith("&"):
+                    o = _strip(d.get("init"))
+                    if isinstance(o, dict) and o.get("k") == "gvar":
+                        out[d["i"]] = o["v"]
+    cg.walk(f.get("body"), visit)
+    return out
+
+
+def table_of_call(F, n, aliases=None):
+    """If call node n is a member call on a namespace-scope table (directly or through a local reference to it), return that variable."""
+    o = _strip(n.get("obj"))
     if isinstance(o, dict) and o.get("k") == "gvar":
         return F.vars.get(o["v"])
+    if isinstance(o, dict) and o.get("k") == "local" and aliases and o.get("i") in aliases:
+        return F.vars.get(aliases[o["i"]])
     return None
 
 
@@ -113,6 +134,7 @@ def run(chk):
                         "default constructors leave values uninitialised by documented design"]
     controls = {"cast": 0, "signed": 0, "unchecked": 0, "uninit": 0, "throw": 0, "vector_element": 0, "array_element": 0, "dangling": 0, "state": 0, "optional_deref": 0, "int_div": 0}
     n_calls = 0
+    var_index_fns = set()
     n_array_idx = [0]
     for T in NUMERIC:
         F = facts.load(T, chk.tier)
@@ -150,12 +172,13 @@ def run(chk):
             qn = f.get("qname", f["name"])
             loc = short(f.get("def_loc", f["loc"]))
             calls = calls_with_context(f)
+            aliases = reference_aliases(F, f)
             # which tables does f compare against end()?
             checked_tables = set()
             for n, _ in calls:
                 g = F.fns.get(n["f"])
                 if g is not None and g["sname"] in ("end", "cend"):
-                    v = table_of_call(F, n)
+                    v = table_of_call(F, n, aliases)
                     if v is not None:
                         checked_tables.add(v["id"])
             opt_tested = any(F.fns.get(n["f"], {}).get("sname") in ("has_value", "operator bool") and "std::optional<" in F.fns.get(n["f"], {}).get("qname", "") for n, _ in calls)
@@ -176,7 +199,7 @@ def run(chk):
                 gq = g.get("qname", g["name"])
                 inst = "%s -> %s" % (f["name"], re.sub(r"<.*", "<..>", gq) + "::" + g["sname"] if "::" + g["sname"] not in gq else re.sub(r"<.*>", "<..>", gq))
                 # R1: table reads
-                v = table_of_call(F, n)
+                v = table_of_call(F, n, aliases)
                 if v is not None and g["sname"] in ("find", "at"):
                     unchecked = g["sname"] == "at" or (v["id"] not in checked_tables and iter_derefs)
                     if unchecked:
@@ -207,10 +230,23 @@ def run(chk):
                         iv = int(idx["cv"]) if "cv" in idx else (int(idx["val"]) if idx.get("k") == "ilit" else None)
                     if is_control:
                         controls["array_element"] += 1 if iv is None else 0
-                    elif iv is None or N is None or not (0 <= iv < N):
-                        chk.violated("R6", "%s: std::array index" % f["name"], "index %s is not a constant inside [0, %s)" % (iv, N), loc)
-                    else:
+                    elif iv is not None and N is not None and 0 <= iv < N:
                         n_array_idx[0] += 1
+                    elif iv is not None:
+                        chk.violated("R6", "%s: std::array index" % f["name"], "index %s is not inside [0, %s)" % (iv, N), loc)
+                    elif f["id"] not in var_index_fns:
+                        # a computed index (loop variable): decided path-sensitively - the evaluator unrolls loops with
+                        # concrete bounds and refuses any element access that is not a concrete index inside the array
+                        var_index_fns.add(f["id"])
+                        try:
+                            E = ev.Evaluator(F)
+                            E.run_symbolic(f)
+                            chk.holds("R6", "%s: computed std::array index" % f["name"], "every index evaluated on every path is a concrete value inside the array (loops unrolled)", loc)
+                        except ev.Inconclusive as x:
+                            if str(x).startswith("bad array"):
+                                chk.violated("R6", "%s: std::array index" % f["name"], "an element access leaves the array: %s" % x, loc)
+                            else:
+                                chk.violated("R6", "%s: std::array index" % f["name"], "index is not a constant and could not be bounded (%s)" % str(x)[:120], loc)
                 if kind == "unclassified":
                     chk.inconclusive("R2", inst, "external callee %s is not in the classification table (noexcept=%s): add it with a reason" % (gq, g.get("nothrow")), loc)
                 elif kind == "may_throw":
@@ -224,7 +260,7 @@ def run(chk):
                         discharged = "key always present: " + table_total(v)[1]
                     elif g["sname"] == "operator()" and "std::function" in gq:
                         # the std::function comes out of a conversion table lookup in the same function
-                        tabs = [table_of_call(F, m) for m, _ in calls if table_of_call(F, m) is not None]
+                        tabs = [table_of_call(F, m, aliases) for m, _ in calls if table_of_call(F, m, aliases) is not None]
                         tabs = [t for t in tabs if "function<" in F.T(t["t"])]
                         if tabs and all(table_total(t)[0] is True for t in tabs):
                             discharged = "target read from total table(s) of function references: %s" % ", ".join(sorted({re.sub(r"<.*", "", t["name"]) for t in tabs}))
@@ -379,6 +415,7 @@ def run(chk):
             if "body" not in f:
                 continue
             calls = calls_with_context(f)
+            aliases = reference_aliases(F, f)
             sto = [(n, g) for n, g in calls if F.fns.get(n["f"], {}).get("sname", "").startswith("sto")]
             inst = f["name"]
             if not sto:
